@@ -43,7 +43,7 @@ def _num(x):
     if isinstance(x, int):
         return canon(Decimal(x))
     if isinstance(x, float):
-        return "F:" + repr(x)
+        return "F:" + repr(float(x))  # numpy.float64 is a float too; its own repr is not a plain number
     return canon(x)
 
 
